@@ -24,6 +24,9 @@ CHECKS = {
  "C05": dict(engine="simnet", technique=A_TECH,
    text="All schedules (orders of Start/PeerAck/PeerAckBatch/Cancel/window events at quiescence plus <=1 (quick) / <=2 (thorough) injections while tasks are runnable) of cap+1..cap+2 application tasks using the awaiting send APIs against send limits 1..3 in all four roles; the window invariant is evaluated after every task poll and every event.",
    note=A_NOTE, design="4/C05"),
+ "C06": dict(engine="simnet", technique=A_TECH,
+   text="Per role 1-3 application sends (QoS 1 auto / caller-chosen id, QoS 2 with held receipt, client subscribe / unsubscribe) started in every order, interleaved with every peer sequence of up to 2 (quick) / 3 (thorough) acknowledgements over every ack type x id {1,2,5,9}; reference = FIFO of sends awaiting their first ack + set of released QoS 2 ids: a matching ack completes exactly that send with its contents, anything else completes nothing and ends the connection with one protocol-error Stop, never a panic; converse family (correct peer, locally failing sends) and a 66k / 140k-send packet-id wrap-around history per role.",
+   note=A_NOTE + " Hostile acks are written at quiescent points; PUBCOMP before the endpoint's PUBREL is outside the statement.", design="4/C06"),
  "C09": dict(engine="enum", technique=B_TECH,
    text="~1500 v5 packet values weighted to shortenable packets x every outbound limit 0..160 (quick) / 0..720 (thorough) plus boundary grid x problem-information on/off, plus values whose encoding must fail and all v3 generator values; oracle: one reference frame, truthful length, within limit, only whole Reason String / User Properties dropped, failed encode leaves zero bytes, no panic.",
    note="Trusts refmqtt.rs; the encoder may be conservative by up to 20 bytes before 'dropped although it fits' is reported.", design="4/C09"),
@@ -36,6 +39,9 @@ CHECKS = {
  "C13": dict(engine="simnet", technique=A_TECH,
    text="Same world as C05 plus readiness futures, cancellation of parked tasks and back-pressure episodes; liveness is judged at quiescence after the correct peer has acknowledged everything it received: every non-cancelled send/ready future must have completed and the connection must be up.",
    note=A_NOTE + " Cancellation is applied to waiting (parked) futures only, as in the statement.", design="4/C13"),
+ "C14": dict(engine="simnet", technique=A_TECH,
+   text="Per role 2-4 concurrent send_exactly_once (receipts held until the explorer releases or drops them, plus immediate release / drop variants, optional QoS 1 send in between, send limits 8 and 2), peer acknowledging in arrival order singly or batched, Release/DropReceipt in every order, <=1 (quick) / <=2 (thorough) injections: each send resolves with its own PUBREC, each release or drop writes exactly one PUBREL with its own id and none while held, release() completes exactly when its own PUBCOMP was delivered.",
+   note=A_NOTE, design="4/C14"),
  "C16": dict(engine="simnet", technique=A_TECH,
    text="Per role and version every sequence of up to 3 (quick) / 4 (thorough) well-formed packets over 26-30 templates (every packet type incl. illegal directions, ids in use/free/unknown, PUBLISH complete/split/incomplete/duplicate/retain/wildcard/alias, second CONNECT, every ack type) against 4 application states (idle, outstanding sends, gated handlers, instead of the handshake); oracle: no panic, poll horizon never hit, at most one Stop with a protocol-error reason unless a DISCONNECT is in the sequence, and a connection without Stop still answers a probe.",
    note=A_NOTE, design="4/C16"),
